@@ -34,6 +34,16 @@ func tryFormat(size uint64) (s *Srv, accepted bool, reason string) {
 	return s, true, ""
 }
 
+// dataStartOfSmallDisk: where the data region of a disk with one block-bitmap block begins (asked from the server).
+func dataStartOfSmallDisk() uint64 {
+	s, ok, _ := tryFormat(4000)
+	if !ok {
+		return 0
+	}
+	defer s.Stop()
+	return uint64(s.N.VerifFsState().Super.DataStart())
+}
+
 func c15Sizes(thorough bool) (sizes []uint64, fills map[uint64]bool) {
 	set := map[uint64]bool{}
 	fills = map[uint64]bool{}
@@ -55,12 +65,31 @@ func c15Sizes(thorough bool) (sizes []uint64, fills map[uint64]bool) {
 			fills[s] = true
 		}
 	} else {
-		add(1500, 1960, 4)
+		add(1500, 1620, 1)
+		add(1621, 1960, 4)
 		add(nb-300, nb+300, 0)
 		add(2*nb-200, 2*nb+200, 0)
 		add(3*nb-200, 3*nb+200, 0)
 		for _, s := range []uint64{nb - 1, nb, nb + 5} {
 			fills[s] = true
+		}
+	}
+	// sizes at which a file that fills the disk runs out of space exactly when it needs a new index block: the data
+	// region holds the root directory's block, n data blocks and their index blocks, plus 0..2 (n = 8: first
+	// indirect block; 520: double-indirect root and its first leaf; 520+512k: a further leaf)
+	if ds := dataStartOfSmallDisk(); ds != 0 {
+		for _, n := range []uint64{8, 520, 1032, 1544} {
+			used := 1 + n
+			if n > 8 {
+				used += 1
+			}
+			if n > 520 {
+				used += 1 + (n-520)/512
+			}
+			for extra := uint64(0); extra <= 3; extra++ {
+				set[ds+used+extra] = true
+				fills[ds+used+extra] = true
+			}
 		}
 	}
 	// the sizes cmd/go-nfsd can produce: 1500 + 256 blocks per megabyte
